@@ -20,15 +20,18 @@ trie model always gets the verdict "ok".
 namespace Casket.VHostSpec
 open Casket.VHost
 
-/-- host spelling ↦ host name: lower case, `[v6]…` ↦ `v6`, `name:port` ↦ `name`;
-a bare IPv6 literal (two or more colons, no brackets) is left alone. -/
-def normHost (s : Bytes) : Bytes :=
-  match lower s with
+/-- `normHost` on an already lower-cased spelling -/
+def normLower (l : Bytes) : Bytes :=
+  match l with
   | [] => []
   | c :: rest =>
     if c = cLbr then rest.takeWhile (· != cRbr)
     else if (c :: rest).count cColon = 1 then (c :: rest).takeWhile (· != cColon)
     else c :: rest
+
+/-- host spelling ↦ host name: lower case, `[v6]…` ↦ `v6`, `name:port` ↦ `name`;
+a bare IPv6 literal (two or more colons, no brackets) is left alone. -/
+def normHost (s : Bytes) : Bytes := normLower (lower s)
 
 /-- Host spellings for which the property is stated: no `/`; either no brackets at all,
 or `[v]` / `[v]:port` with bracket-free `v` that is not itself of the form `name:port`
@@ -76,8 +79,9 @@ def candidates (h : Bytes) (fbs : List Bytes) : List Bytes := (h :: fbs).flatMap
 def declared (es : List Entry) (h : Bytes) : Bool := es.any (fun e => e.host == h)
 
 /-- the non-empty prefixes of `p`, longest first -/
-def prefixesDesc (p : Bytes) : List Bytes :=
-  ((List.range p.length).map (fun n => p.take (n + 1))).reverse
+def prefixesDesc : Bytes → List Bytes
+  | [] => []
+  | c :: rest => (prefixesDesc rest).map (c :: ·) ++ [[c]]
 
 /-- the site declared for exactly (host, path); with duplicate keys the later one
 (duplicates are rejected before a server is built) -/
@@ -93,9 +97,18 @@ def specRoute (sites : List Site) (r : Req) : Outcome :=
     | none => .notFound (notFoundStatus r.protoMajor)
     | some e => .site e.idx e.path
 
+/-- the address (host pattern, path) of the site `specRoute` chooses, without reference to
+declaration positions -/
+def chosenKey (sites : List Site) (r : Req) : Option (Bytes × Bytes) :=
+  let es := entries sites
+  match (candidates (normHost r.host) (fallbacks sites)).find? (declared es) with
+  | none => none
+  | some c =>
+    ((prefixesDesc r.path).find? (fun k => es.any (fun e => e.host == c && e.path == k))).map (fun k => (c, k))
+
 /-- the domain of the property: well-formed host spellings, origin-form request path -/
 def inDomain (sites : List Site) (r : Req) : Bool :=
-  wfHost r.host && r.path.head? == some cSlash && sites.all (fun s => wfHost (keyHost (vhostOf s.key)))
+  wfHost (lower r.host) && r.path.head? == some cSlash && sites.all (fun s => wfHost (lower (keyHost (vhostOf s.key))))
 
 def verdict (sites : List Site) (r : Req) (o : Outcome) : String :=
   if !inDomain sites r then "ok"
@@ -104,10 +117,15 @@ def verdict (sites : List Site) (r : Req) (o : Outcome) : String :=
     | .site i p, .site j q =>
       if i != j then s!"bad:wrong-site:site {j} ran, the most specific match is site {i}"
       else if p != q then "bad:wrong-prefix:the right site ran with another path prefix"
+      else if chosenKey sites r != chosenKey sites.reverse r then
+        "bad:order-dependent:declaring the same sites in reverse order sends this request to another site"
       else "ok"
     | .site i _, .notFound st => s!"bad:not-served:answered {st}, but site {i} matches"
     | .notFound _, .site j _ => s!"bad:served-unmatched:site {j} ran, but no site matches"
     | .notFound a, .notFound b =>
-      if a != b then s!"bad:wrong-status:answered {b}, expected {a}" else "ok"
+      if a != b then s!"bad:wrong-status:answered {b}, expected {a}"
+      else if chosenKey sites r != chosenKey sites.reverse r then
+        "bad:order-dependent:declaring the same sites in reverse order serves this request"
+      else "ok"
 
 end Casket.VHostSpec
